@@ -128,6 +128,7 @@ theorem sysOld_cleanupK (s : St) (k : Kind) : SysOld s (cleanupK s k) := by
 theorem sysOld_observe (s : St) (w : Option Nat) : SysOld s (observe s w).2 := by
   unfold observe
   dsimp only
+  refine SysOld.trans ?_ (SysOld.of_eq (bumpLocal_data _ w))
   split
   · rename_i y hy
     split
